@@ -132,6 +132,12 @@ func c14Run(rc *sim.RunCtx) {
 	restoreHook := sc.Install()
 	defer restoreHook()
 	pollute := t.Bool(1, 3)
+	earlier := t.Bool(1, 3)
+	var earlierBC *ugo.Bytecode
+	if earlier {
+		earlierBC = mustCompile(sim.PreludeCall+c14Warmup+"return wm.get()\n", mm, false)
+		rc.Probe("root-vm-ran-another-script-before")
+	}
 	run := func(bc *ugo.Bytecode, policy int) (c08Result, *sim.World, *sim.SimPool) {
 		pool := &sim.SimPool{T: t, Always: policy}
 		restore := pool.Install()
@@ -149,6 +155,15 @@ func c14Run(rc *sim.RunCtx) {
 		sc.Steps = 0
 		w := sim.NewWorld(ws, nil)
 		vm := ugo.NewVM(bc).SetRecover(true)
+		if policy == 0 && earlier {
+			// history of the root VM: it ran another script with pooled and plain invocations before, and was given
+			// this one with SetBytecode (no Clear)
+			pw := sim.NewWorld(&sim.WorldSpec{Name: "earlier", Pooled: []bool{true, false, true, true, false, true, true, false, true, true, false, true}, Repeat: make([]int, 12)}, nil)
+			vm = ugo.NewVM(earlierBC).SetRecover(true)
+			vm.Run(pw.Globals)
+			vm.SetBytecode(bc)
+			sc.Steps = 0
+		}
 		ret, err := vm.Run(w.Globals, ugo.Int(1))
 		// strip the history entries of the call() bookkeeping: none are logged, histories are comparable as they are
 		return c08Result{out: sim.MakeOutcome(ret, err, w.Hist)}, w, pool
